@@ -209,6 +209,9 @@ namespace Pistache::Tcp
         Lock toWriteLock;
 
         PollableQueue<TimerEntry> timersQueue;
+        // armed by the transport's own thread, disarmed by whichever thread sends
+        // the response
+        mutable Lock timersLock;
         std::unordered_map<Fd, TimerEntry> timers;
 
         PollableQueue<PeerEntry> peersQueue;
